@@ -46,6 +46,7 @@ const blockSize = 8192
 // calling the code under test.
 type View struct {
 	WF          bool        `json:"wf"`
+	Parses      bool        `json:"parses"` // the bytes can be read under the type at all (what they name is then followed by reachability walks)
 	Blobs       []string    `json:"blobs"`
 	Mans        [][2]string `json:"mans"`
 	Subject     string      `json:"subject"`
@@ -221,9 +222,9 @@ func (cat *Catalog) addImage(id, config string, layers []string, subject, subjec
 	wf := defect == ""
 	// the empty blob may only be described with size 0 and the empty digest, which descJSON does.
 	return cat.addMan(&Content{ID: id, Data: []byte(data), Natural: "image", As: map[string]View{
-		"image": {WF: wf, Blobs: uniq(blobs), Mans: [][2]string{}, Subject: subject, SubjectType: subjectType},
+		"image": {WF: wf, Parses: true, Blobs: uniq(blobs), Mans: [][2]string{}, Subject: subject, SubjectType: subjectType},
 		// read as an index there are no "manifests"; the subject is still seen
-		"index": {WF: true, Blobs: []string{}, Mans: [][2]string{}, Subject: subject, SubjectType: subjectType},
+		"index": {WF: true, Parses: true, Blobs: []string{}, Mans: [][2]string{}, Subject: subject, SubjectType: subjectType},
 	}})
 }
 
@@ -244,19 +245,21 @@ func (cat *Catalog) addIndex(id string, children [][2]string, subject, subjectTy
 		children = [][2]string{}
 	}
 	return cat.addMan(&Content{ID: id, Data: []byte(data), Natural: "index", As: map[string]View{
-		// read as an image the config descriptor is missing: rejected
-		"image": noView,
-		"index": {WF: true, Blobs: []string{}, Mans: uniq2(children), Subject: subject, SubjectType: subjectType},
+		// read as an image the config descriptor is missing: rejected at push time; a walk sees the subject only
+		"image": {WF: false, Parses: true, Blobs: []string{}, Mans: [][2]string{}, Subject: subject, SubjectType: subjectType},
+		"index": {WF: true, Parses: true, Blobs: []string{}, Mans: uniq2(children), Subject: subject, SubjectType: subjectType},
 	}})
 }
 
 // addOpaque adds manifest bytes that are either not JSON at all or JSON that describes nothing.
 func (cat *Catalog) addOpaque(id string, data string, validJSON bool) *Content {
-	idx := noView
+	idx, img := noView, noView
 	if validJSON {
-		idx = View{WF: true, Blobs: []string{}, Mans: [][2]string{}, Subject: "-", SubjectType: "-"}
+		// a JSON object naming nothing: an empty index; as an image it lacks a config but can be read
+		idx = View{WF: true, Parses: true, Blobs: []string{}, Mans: [][2]string{}, Subject: "-", SubjectType: "-"}
+		img = View{WF: false, Parses: true, Blobs: []string{}, Mans: [][2]string{}, Subject: "-", SubjectType: "-"}
 	}
-	return cat.addMan(&Content{ID: id, Data: []byte(data), Natural: "other", As: map[string]View{"image": noView, "index": idx}})
+	return cat.addMan(&Content{ID: id, Data: []byte(data), Natural: "other", As: map[string]View{"image": img, "index": idx}})
 }
 
 func uniq(xs []string) []string {
@@ -299,6 +302,8 @@ func mcCatalog() *Catalog {
 	cat.addIndex("idy", [][2]string{{"img", "other"}}, "-", "-", "idy")
 	cat.addImage("sub", "b2", []string{"u:b1"}, "img", "image", "sub", "", 0)
 	cat.addOpaque("bad", `{"schemaVersion":2,"config":`, false)
+	// an index naming the unreadable bytes as an image manifest, ahead of a real one
+	cat.addIndex("idz", [][2]string{{"bad", "image"}, {"img", "image"}}, "-", "-", "idz")
 	// large opaque manifests: pushing them takes long enough for concurrent pushes to overlap
 	for _, id := range []string{"big1", "big2", "big3"} {
 		cat.addOpaque(id, `{"id":"`+id+`","pad":"`+strings.Repeat("x", 3<<20)+`"}`, true)
@@ -378,8 +383,12 @@ func randCatalog(rnd *rand.Rand, nRepos, nTags, nb, nm int, big bool) *Catalog {
 			for j := 1 + rnd.Intn(2); j > 0; j-- {
 				c := pick(mans)
 				t := cat.byID[c].Natural
-				if rnd.Intn(6) == 0 {
+				switch rnd.Intn(12) {
+				case 0, 1:
 					t = "other"
+				case 2:
+					// named under a type it is not stored with, whatever its bytes are
+					t = pick([]string{"image", "index"})
 				}
 				ch = append(ch, [2]string{c, t})
 			}
